@@ -16,7 +16,7 @@ def main(tier, replay=None):
         dict(scn="local", name="mbox-2-concurrent", opts=["mode=mboxconc", "n=2"], bounds="%d,1,0,0" % (2 if q else 3), total=3 if q else 4),
         dict(scn="local", name="mbox-3-concurrent", opts=["mode=mboxconc", "n=3"], bounds="2,%d,0,0" % (0 if q else 1), total=2 if q else 3, deadline=900),
     ]
-    run_families(res, "C12", tier, fams)
+    plain_src = run_families(res, "C12", tier, fams)
     res.rule = ("real qmail-local under the virtual kernel.  maildir: 7 messages (0..3000 bytes around the 1024-byte buffers, NUL/8-bit, no final "
                 "newline) x 7 envelope senders x {kill or machine crash (every keep/lose pattern) before every file operation of parent and "
                 "child, every failing write/short write/fsync/close/link(EIO,EEXIST)/open/read/fork}: every file ever visible in new/ must be "
@@ -28,4 +28,5 @@ def main(tier, replay=None):
     res.assumptions = ["virtual kernel (appendix A)", "mbox is documented as not crash-proof: machine crashes are not judged for mbox", "a failing flock() is outside the property (delivery proceeds unlocked, as documented 'if possible')"]
     res.require_nonzero("evaluations", "maildir_files_checked", "machine_crashes", "process_kills", "deliveries_ok", "deliveries_deferred")
     res.notes.append("virtual kernel vs Linux: %d operation sequences compared before this run, all agree (bin/conformance)" % nconf)
+    lib_conformance(res, rundir("C12lib"), plain_src, ['io', 'num'], tier, asan=False)
     return res.finish()
